@@ -84,6 +84,11 @@ def _validate(ck, hists, obs, label):
 INPLACE = {"convert_to_units", "convert_to_base", "convert_to_cgs", "convert_to_mks", "convert_to_equivalent", "iop", "ufunc_out", "unary_out", "setitem0", "setitemall", "copyto", "put", "putmask", "fill_diagonal"}
 
 
+GEN = ["gufunc", "gunary", "garrfn", "gmethod"]  # generic copying families (frame-only)
+NONG = ["in_units", "to", "to_value", "in_base", "in_cgs", "in_mks", "to_equivalent", "binop", "ufunc", "unary", "copy", "concatenate", "dot", "clip",
+        "umul", "udiv", "upow", "ubase", "ucoeff", "ucopy", "usimplify", "units_simplify"] + sorted(INPLACE)
+
+
 def _set(xs):
     return "{" + ", ".join('"%s"' % x for x in xs) + "}"
 
@@ -147,12 +152,20 @@ def run(ck):
 
     # 1. single step: configurations x catalogue, exhaustive ("lr" = lb/la: a unit whose spelling cancels to a coefficient)
     if ck.tier == "quick":
-        name = _cfg(ck, "MC_C18_q1", 1, ["f8", "i8", "i1"], ["f8"], ["la", "oc"], ["lb", "K"], ["la"], ["f8"])
-        name2 = _cfg(ck, "MC_C18_q2", 1, ["f8"], ["i8"], ["lb", "lr"], ["la", "oc", "tl"], ["na"], ["i8"])
+        name = _cfg(ck, "MC_C18_q1", 1, ["f8", "i8", "i1"], ["f8"], ["la", "oc"], ["lb", "K"], ["la"], ["f8"], NONG)
+        name2 = _cfg(ck, "MC_C18_q2", 1, ["f8"], ["i8"], ["lb", "lr"], ["la", "oc", "tl"], ["na"], ["i8"], NONG)
+        # generic copying families (every binary ufunc family x call/operator/reduce/accumulate/outer, array functions,
+        # methods): same dimension in different units on either side (A vs B, A vs Q, B vs Q), float64 and float32
+        nameg = _cfg(ck, "MC_C18_qg", 1, ["f8", "f4"], ["f8"], ["la", "lb"], ["lb"], ["la"], ["f8"], GEN)
+        nameg2 = _cfg(ck, "MC_C18_qg2", 1, ["f8"], ["f8"], ["oc"], ["K"], ["la"], ["f8"], GEN)
     else:
-        name = _cfg(ck, "MC_C18_t1", 1, ["f8", "i8", "i1", "i4", "f4"], ["f8"], ["la", "oc", "K"], ["lb", "ta", "oc", "tl"], ["la", "na"], ["f8"])
-        name2 = _cfg(ck, "MC_C18_t2", 1, ["f8", "i2"], ["i8", "i4"], ["lb", "lr"], ["la", "oc"], ["ta"], ["i4"])
-    insts = [("step", name, f"single step: configurations x call catalogue ({name})"), ("step", name2, f"single step: configurations x call catalogue ({name2})")]
+        name = _cfg(ck, "MC_C18_t1", 1, ["f8", "i8", "i1", "i4", "f4"], ["f8"], ["la", "oc", "K"], ["lb", "ta", "oc", "tl"], ["la", "na"], ["f8"], NONG)
+        name2 = _cfg(ck, "MC_C18_t2", 1, ["f8", "i2"], ["i8", "i4"], ["lb", "lr"], ["la", "oc"], ["ta"], ["i4"], NONG)
+        nameg2 = _cfg(ck, "MC_C18_tg2", 1, ["f8", "i8"], ["f8"], ["oc", "lr"], ["K", "oc"], ["na"], ["f8"], GEN)
+        nameg = _cfg(ck, "MC_C18_tg", 1, ["f8", "f4", "i8"], ["f8", "f4"], ["la", "lb"], ["lb"], ["la"], ["f8"], GEN)
+    insts = [("step", name, f"single step: configurations x call catalogue ({name})"), ("step", name2, f"single step: configurations x call catalogue ({name2})"),
+             ("step", nameg, f"single step: configurations x generic copying families ({nameg})"),
+             ("step", nameg2, f"single step: configurations x generic copying families ({nameg2})")]
     # 2a. "new object" really new?  every copying call that returns an array, followed by every in-place call on the result R
     first = ["in_units", "to", "in_base", "in_mks", "in_cgs", "copy", "unary", "to_equivalent"] + ck.q([], ["binop", "clip", "concatenate"])
     second = ["iop", "setitem0", "convert_to_units"] + ck.q([], ["unary_out", "put"])
@@ -161,12 +174,12 @@ def run(ck):
     if ck.tier == "thorough":
         # 2b. exhaustive depth 2 on the in-place / copying alphabet that matters for sequences
         ops = ["in_units", "convert_to_units", "iop", "unary_out", "copy", "setitem0", "convert_to_equivalent", "units_simplify"]
-        nm = _cfg(ck, "MC_C18_t3", 2, ["f8", "i8"], ["f8"], ["oc"], ["lb"], ["na"], ["f8"], ops)
+        nm = _cfg(ck, "MC_C18_t3", 2, ["f8"], ["f8"], ["oc"], ["lb"], ["na"], ["f8"], ops)
         insts.append(("depth2", nm, "all histories of 2 calls (reduced alphabet)"))
     # 2c. deeper histories over the full alphabet: about Fan calls per state chosen by a deterministic hash of (call, history, configuration, VERIF_SEED)
     fan = ck.q(13, 11)
     depth = ck.q(3, 4)
-    nm = _cfg(ck, "MC_C18_rnd", depth, ["f8", "i8"], ["f8"], ["la", "oc"], ["lb", "K"], ["na"], ["f8"], fan=fan)
+    nm = _cfg(ck, "MC_C18_rnd", depth, ["f8", "i8"], ["f8"], ["la", "oc"], ["lb", "K"], ["na"], ["f8"], NONG, fan=fan, ops2=NONG)
     insts.append(("rnd", nm, f"hash-thinned histories: depth={depth} fan={fan}"))
     with ThreadPoolExecutor(max_workers=PAR) as ex:
         outs = list(ex.map(lambda i: _run_instance(ck, i[1], i[2]), insts))
